@@ -173,10 +173,21 @@ func filterSaid(lits []core.Lit, outcome bool) bool {
 func (c *Ctx) runConverterOptions() {
 	p := c.P
 	n := 0
+	// the option closures and the private steps they hand the converters to
+	var fns []*ssa.Function
+	seenFn := map[*ssa.Function]bool{}
 	for _, f := range p.ArgFuncs() {
 		if f.Parent() == nil || !isArgCtor(core.Outer(f)) {
 			continue
 		}
+		for _, g := range p.Region(f) {
+			if !seenFn[g] {
+				seenFn[g] = true
+				fns = append(fns, g)
+			}
+		}
+	}
+	for _, f := range fns {
 		core.Instrs(f, func(in ssa.Instruction) {
 			cl, ok := in.(*ssa.Call)
 			if !ok || core.CalleeName(cl.Common()) != "builtin.append" {
@@ -259,6 +270,17 @@ func (c *Ctx) runConverterOptions() {
 					}
 					if start != nil && start != cl.Block() && core.ReachableAvoiding(start, header, map[*ssa.BasicBlock]bool{cl.Block(): true}) {
 						extra = "a path from the element to the next one that skips the append"
+					}
+					// … and the loop over the handed-in elements is left only when they are exhausted or with an error: an
+					// exit from its body that returns no error (or just leaves the loop) drops every later element
+					if extra == "" {
+						for _, lp := range naturalLoops(f) {
+							if lp.header == header {
+								if w := c.silentLoopExit(lp.header, lp.body); w != "" {
+									extra = w + ": the elements after it are dropped"
+								}
+							}
+						}
 					}
 				}
 			}
@@ -890,4 +912,60 @@ func (c *Ctx) zeroErr(v ssa.Value) bool {
 		return true
 	}
 	return len(cl.Common().Args) == 1 && c.errBoxer(cl.Common().StaticCallee()) && core.IsNilConst(cl.Common().Args[0])
+}
+
+// silentLoopExit looks for a way out of a loop's body, other than the exhaustion test in its header, that does not
+// report an error: a return whose final error result is the nil constant or is known to be nil on that edge (a
+// dominating `err == nil`, the nil alternative of a merged value), or a jump to the code after the loop. Panics and
+// returns of a possibly non-nil error are fine. Returns a description of the first such exit, or "".
+func (c *Ctx) silentLoopExit(header *ssa.BasicBlock, body map[*ssa.BasicBlock]bool) string {
+	p := c.P
+	for _, b := range header.Parent().Blocks {
+		if !body[b] || b == header {
+			continue
+		}
+		for si, sc := range b.Succs {
+			if body[sc] {
+				continue
+			}
+			at := p.InstrPos(b.Instrs[len(b.Instrs)-1])
+			switch t := sc.Instrs[len(sc.Instrs)-1].(type) {
+			case *ssa.Panic:
+				continue
+			case *ssa.Return:
+				n := len(t.Results)
+				if n == 0 {
+					return "an exit from the loop at " + at + " that returns nothing"
+				}
+				ev := t.Results[n-1]
+				if _, isErr := ev.Type().Underlying().(*types.Interface); !isErr {
+					return "an exit from the loop at " + at + " that reports no error"
+				}
+				if ph, isPhi := ev.(*ssa.Phi); isPhi && ph.Block() == sc {
+					for pi, pr := range sc.Preds {
+						if pr == b {
+							ev = ph.Edges[pi]
+						}
+					}
+				}
+				if core.IsNilConst(ev) {
+					return "an exit from the loop at " + at + " that reports no error"
+				}
+				lits := core.Lits(core.Guards(b))
+				if iff, isIf := b.Instrs[len(b.Instrs)-1].(*ssa.If); isIf {
+					lits = append(lits, core.LitOf(iff.Cond, si == 0))
+				}
+				for _, l := range lits {
+					if l.Kind == "cmp" && l.Op == token.EQL && l.Pol {
+						if (core.Strip(l.X) == core.Strip(ev) && core.IsNilConst(l.Y)) || (core.Strip(l.Y) == core.Strip(ev) && core.IsNilConst(l.X)) {
+							return "an exit from the loop at " + at + " on which the returned error is known to be nil"
+						}
+					}
+				}
+			default:
+				return "a jump out of the loop at " + at
+			}
+		}
+	}
+	return ""
 }
